@@ -1159,7 +1159,11 @@ impl Ctx {
                 let mut store = std::mem::take(&mut self.prepared);
                 let world = self.world(*w);
                 let dup = path.starts_with("many_") && (0..es.len()).any(|i| es[..i].contains(&es[i]));
-                let r = if dup {
+                let asserting =
+                    *q >= crate::query_engine::FIRST_ALIASING && crate::query_engine::ASSERTING_PATHS.contains(&path.as_str());
+                // (an aliasing query on a dynamically checked path fails in the middle of its acquisition; like every
+                // other panic from inside hecs that ends the history)
+                let r = if (dup && *q < crate::query_engine::FIRST_ALIASING) || asserting {
                     // refused before anything is touched: the history goes on
                     match guarded(|| crate::query_engine::exec_query(world, *q, path, e, &hs, &es, (*n).max(1) as u32, &mut store)) {
                         Ok(r) => r,
@@ -1442,6 +1446,25 @@ impl Gen {
         self.plan.push_back(Op::Obs { w });
     }
 
+    /// scenario: a prepared query hands out a view, the columns it looked at are reallocated (the archetype
+    /// grows past its capacity, no new archetype appears), and it hands out a view again
+    fn plan_prepared_growth(&mut self, w: usize) {
+        let q = *self.rng.pick(&[0usize, 1, 2, 4, 5, 11, 29, 38, 40, 41, 44]).unwrap();
+        let k = *self.rng.pick(&[1usize, 10, 11, 12, 17, 22]).unwrap();
+        let h = HRef::Lit(u32::MAX, u32::MAX);
+        let query = |path: &str| Op::Query { w, q, path: path.to_string(), h: h.clone(), n: 2, es: vec![] };
+        let ts = bundle_types(k);
+        let first = self.bundle_for_types(&ts);
+        self.plan.push_back(Op::Spawn { w, k: Some(k), b: first });
+        self.plan.push_back(query("prepared_view"));
+        let n = *self.rng.pick(&[64usize, 70, 130]).unwrap();
+        let rows = (0..n).map(|_| self.bundle_for_types(&ts)).collect();
+        self.plan.push_back(Op::SpawnBatch { w, k, via: "batch".into(), rows });
+        self.plan.push_back(query("prepared_view"));
+        self.plan.push_back(query("prepared"));
+        self.plan.push_back(query("prepared_mut"));
+    }
+
     /// scenario: a prepared query is (re)built while an archetype it matches exists but is empty, the
     /// archetype is refilled without any new archetype appearing, and the prepared query is used again
     fn plan_stale_prepared(&mut self, w: usize) {
@@ -1701,6 +1724,12 @@ impl Gen {
         }
         if self.profile == Profile::Containers && self.rng.chance(4) {
             self.plan_round_trip(ctx, w);
+            if let Some(op) = self.plan.pop_front() {
+                return Self::bind_last(op, ctx);
+            }
+        }
+        if self.profile == Profile::Query && self.rng.chance(2) {
+            self.plan_prepared_growth(w);
             if let Some(op) = self.plan.pop_front() {
                 return Self::bind_last(op, ctx);
             }
